@@ -284,30 +284,29 @@ Definition map_body (i : info) (bp : string) (lc : loc) :=
   fun (kv : node * node) (pos : nat) (seen : list string) =>
     let key := fst kv in
     let val := snd kv in
-    if skip_merged mt o (oid i) pos then Ok ([], seen)
+    let tmp := (map_prefix sp bp ++ escp sp (key_text key))%string in
+    let lc' := (lc ++ [key_ref key])%list in
+    do ka_s <- sanchor key seen (o_kalias o);
+    do va_s <- sanchor val (snd ka_s) (o_valias o);
+    let ka := fst ka_s in
+    let va := fst va_s in
+    let seen2 := snd va_s in
+    if skip_merged mt o (oid i) pos || (negb (o_kalias o) && is_excl ka)
+    then Ok ([], record_anchors val seen2)
     else
-      let tmp := (map_prefix sp bp ++ escp sp (key_text key))%string in
-      let lc' := (lc ++ [key_ref key])%list in
-      do ka_s <- sanchor key seen (o_kalias o);
-      do va_s <- sanchor val (snd ka_s) (o_valias o);
-      let ka := fst ka_s in
-      let va := fst va_s in
-      let seen2 := snd va_s in
-      if negb (o_kalias o) && is_excl ka then Ok ([], record_anchors val seen2)
-      else
-        do kres <-
-          (if o_keys o then
-             if is_hit ka then
-               do hs <- report lit re_search mt tm sp o val tmp lc' HKeyAnchor seen2; Ok (Some hs)
-             else
-               do m <- term_matches lit re_search tm (node_hay key);
-               if m then do hs <- report lit re_search mt tm sp o val tmp lc' HKey seen2; Ok (Some hs)
-               else Ok None
-           else Ok None);
-        match kres with
-        | Some hs => Ok hs
-        | None => value_part lit re_search mt tm sp o rec va val tmp lc' seen2
-        end.
+      do kres <-
+        (if o_keys o then
+           if is_hit ka then
+             do hs <- report lit re_search mt tm sp o val tmp lc' HKeyAnchor seen2; Ok (Some hs)
+           else
+             do m <- term_matches lit re_search tm (node_hay key);
+             if m then do hs <- report lit re_search mt tm sp o val tmp lc' HKey seen2; Ok (Some hs)
+             else Ok None
+         else Ok None);
+      match kres with
+      | Some hs => Ok hs
+      | None => value_part lit re_search mt tm sp o rec va val tmp lc' seen2
+      end.
 
 Lemma sfp_map_eq i kvs bp lc seen :
   sfp (NMap i kvs) bp lc seen =
@@ -344,27 +343,29 @@ Proof. reflexivity. Qed.
 (* what a mapping entry does *)
 Lemma map_body_cases i bp lc kv pos seen r :
   map_body i bp lc kv pos seen = Ok r ->
-  (skip_merged mt o (oid i) pos = true /\ r = ([], seen))
-  \/ (skip_merged mt o (oid i) pos = false /\
-      exists ka s1 va s2,
-        sanchor (fst kv) seen (o_kalias o) = Ok (ka, s1) /\ sanchor (snd kv) s1 (o_valias o) = Ok (va, s2) /\
-        quiet ka /\ quiet va /\
+  exists ka s1 va s2,
+    sanchor (fst kv) seen (o_kalias o) = Ok (ka, s1) /\ sanchor (snd kv) s1 (o_valias o) = Ok (va, s2) /\
+    quiet ka /\ quiet va /\
+    ((* a merged-in entry the options hide: classified, then walked by record_anchors *)
+     (skip_merged mt o (oid i) pos = true /\ r = ([], record_anchors (snd kv) s2))
+     \/ (skip_merged mt o (oid i) pos = false /\
         let tmp := (map_prefix sp bp ++ escp sp (key_text (fst kv)))%string in
         let lc' := (lc ++ [key_ref (fst kv)])%list in
         ((negb (o_kalias o) && is_excl ka = true /\ r = ([], record_anchors (snd kv) s2))
          \/ (negb (o_kalias o) && is_excl ka = false /\ o_keys o = true /\ satb (fst kv) = true /\
              r = ([mkhit tmp lc' HKey], record_anchors (snd kv) s2))
          \/ (negb (o_kalias o) && is_excl ka = false /\ (o_keys o = false \/ satb (fst kv) = false) /\
-             value_part lit re_search mt tm sp o rec va (snd kv) tmp lc' s2 = Ok r))).
+             value_part lit re_search mt tm sp o rec va (snd kv) tmp lc' s2 = Ok r)))).
 Proof.
-  intros E. unfold map_body in E. destruct (skip_merged mt o (oid i) pos).
+  intros E. unfold map_body in E.
+  destruct (classify_alias (fst kv) seen (o_kalias o)) as [ka [s1 [Ek [Qk [Hk _]]]]].
+  rewrite Ek in E. simpl in E.
+  destruct (classify_alias (snd kv) s1 (o_valias o)) as [va [s2 [Ev [Qv [Hv _]]]]].
+  rewrite Ev in E. simpl in E.
+  exists ka, s1, va, s2. split; auto. split; auto. split; auto. split; auto.
+  destruct (skip_merged mt o (oid i) pos).
   - left. inversion E; auto.
-  - right. split; auto.
-    destruct (classify_alias (fst kv) seen (o_kalias o)) as [ka [s1 [Ek [Qk [Hk _]]]]].
-    rewrite Ek in E. simpl in E.
-    destruct (classify_alias (snd kv) s1 (o_valias o)) as [va [s2 [Ev [Qv [Hv _]]]]].
-    rewrite Ev in E. simpl in E.
-    exists ka, s1, va, s2. split; auto. split; auto. split; auto. split; auto. simpl.
+  - right. split; auto. simpl in E |- *.
     destruct (negb (o_kalias o) && is_excl ka).
     + left. inversion E; auto.
     + right. destruct (o_keys o).
@@ -447,19 +448,19 @@ Proof.
     + intros j kv s rj Hn Hi Eb. simpl in Eb.
       rewrite (flat_map_firstn_S _ _ _ _ Hn), app_assoc.
       set (pj := (pre ++ flat_map entry_occs (firstn j kvs))%list) in *.
-      destruct (map_body_cases _ _ _ _ _ _ _ Eb) as [[_ ->]|[_ [ka [s1 [va [s2 [Ek [Ev [Qk [Qv C]]]]]]]]]].
-      * simpl. apply agree_app; auto.
-      * destruct (classify_alias (fst kv) s (o_kalias o)) as [ka' [s1' [Ek' [_ [_ [_ [Ak _]]]]]]].
-        rewrite Ek in Ek'. inversion Ek'; subst ka' s1'.
-        destruct (classify_alias (snd kv) s1 (o_valias o)) as [va' [s2' [Ev' [_ [_ [_ [Av _]]]]]]].
-        rewrite Ev in Ev'. inversion Ev'; subst va' s2'.
-        pose proof (Av _ (Ak _ Hi)) as H2.
-        unfold entry_occs. rewrite !app_assoc.
-        destruct C as [[_ ->]|[[_ [_ [_ ->]]]|[_ [_ Evp]]]]; simpl.
-        -- apply record_agree; auto.
-        -- apply record_agree; auto.
-        -- rewrite Forall_forall in IH. destruct (IH _ (nth_error_In _ _ Hn)) as [_ IHv].
-           eapply value_part_agree; eauto.
+      destruct (map_body_cases _ _ _ _ _ _ _ Eb) as [ka [s1 [va [s2 [Ek [Ev [Qk [Qv C]]]]]]]].
+      destruct (classify_alias (fst kv) s (o_kalias o)) as [ka' [s1' [Ek' [_ [_ [_ [Ak _]]]]]]].
+      rewrite Ek in Ek'. inversion Ek'; subst ka' s1'.
+      destruct (classify_alias (snd kv) s1 (o_valias o)) as [va' [s2' [Ev' [_ [_ [_ [Av _]]]]]]].
+      rewrite Ev in Ev'. inversion Ev'; subst va' s2'.
+      pose proof (Av _ (Ak _ Hi)) as H2.
+      unfold entry_occs. rewrite !app_assoc.
+      destruct C as [[_ ->]|[_ [[_ ->]|[[_ [_ [_ ->]]]|[_ [_ Evp]]]]]]; simpl.
+      * apply record_agree; auto.
+      * apply record_agree; auto.
+      * apply record_agree; auto.
+      * rewrite Forall_forall in IH. destruct (IH _ (nth_error_In _ _ Hn)) as [_ IHv].
+        eapply value_part_agree; eauto.
     + simpl. rewrite app_nil_r. auto.
     + rewrite firstn_length_all in I. exact I.
   - (* sequence *)
@@ -511,18 +512,18 @@ Lemma map_step_agree i pre bp lc kvs j kv s rj :
   map_body i bp lc kv (0 + j) s = Ok rj -> agree (pre ++ flat_map entry_occs (firstn (S j) kvs)) (snd rj).
 Proof.
   intros Hn Hi Eb. rewrite (flat_map_firstn_S _ _ _ _ Hn), app_assoc.
-  destruct (map_body_cases _ _ _ _ _ _ _ Eb) as [[_ ->]|[_ [ka [s1 [va [s2 [Ek [Ev [Qk [Qv C]]]]]]]]]].
-  - simpl. apply agree_app; auto.
-  - destruct (classify_alias (fst kv) s (o_kalias o)) as [ka' [s1' [Ek' [_ [_ [_ [Ak _]]]]]]].
-    rewrite Ek in Ek'. inversion Ek'; subst ka' s1'.
-    destruct (classify_alias (snd kv) s1 (o_valias o)) as [va' [s2' [Ev' [_ [_ [_ [Av _]]]]]]].
-    rewrite Ev in Ev'. inversion Ev'; subst va' s2'.
-    pose proof (Av _ (Ak _ Hi)) as H2.
-    unfold entry_occs. rewrite !app_assoc.
-    destruct C as [[_ ->]|[[_ [_ [_ ->]]]|[_ [_ Evp]]]]; simpl.
-    + apply record_agree; auto.
-    + apply record_agree; auto.
-    + eapply value_part_agree'; eauto.
+  destruct (map_body_cases _ _ _ _ _ _ _ Eb) as [ka [s1 [va [s2 [Ek [Ev [Qk [Qv C]]]]]]]].
+  destruct (classify_alias (fst kv) s (o_kalias o)) as [ka' [s1' [Ek' [_ [_ [_ [Ak _]]]]]]].
+  rewrite Ek in Ek'. inversion Ek'; subst ka' s1'.
+  destruct (classify_alias (snd kv) s1 (o_valias o)) as [va' [s2' [Ev' [_ [_ [_ [Av _]]]]]]].
+  rewrite Ev in Ev'. inversion Ev'; subst va' s2'.
+  pose proof (Av _ (Ak _ Hi)) as H2.
+  unfold entry_occs. rewrite !app_assoc.
+  destruct C as [[_ ->]|[_ [[_ ->]|[[_ [_ [_ ->]]]|[_ [_ Evp]]]]]]; simpl.
+  - apply record_agree; auto.
+  - apply record_agree; auto.
+  - apply record_agree; auto.
+  - eapply value_part_agree'; eauto.
 Qed.
 
 Lemma set_step_agree pre bp lc els j m s rj :
@@ -694,7 +695,7 @@ Proof.
       eapply covered_incl; eauto. simpl in Hi.
       pose proof (incl_child entry_occs _ _ _ _ Hi Hn) as Hic. unfold entry_occs in Hic. simpl in Hic.
       rewrite !app_assoc in Hic.
-      destruct (map_body_cases _ _ _ _ _ _ _ Eb) as [[Sk _]|[_ [ka [s1 [va [s2 [Ek [Ev [Qk [Qv C]]]]]]]]]].
+      destruct (map_body_cases _ _ _ _ _ _ _ Eb) as [ka [s1 [va [s2 [Ek [Ev [Qk [Qv [[Sk _]|[_ C]]]]]]]]]].
       { rewrite (skip_merged_hidden _ _ Hm) in Sk. discriminate. }
       simpl in Ek, Ev, C.
       destruct (key_not_skipped _ _ _ _ _ (incl_app_l' _ _ _ (incl_app_l' _ _ _ Hic)) Hagj Hks Ek) as [Nk _].
@@ -716,7 +717,7 @@ Proof.
         eapply covered_incl; eauto. simpl in Hi.
         pose proof (incl_child entry_occs _ _ _ _ Hi Hn) as Hic. unfold entry_occs in Hic. simpl in Hic.
         rewrite !app_assoc in Hic.
-        destruct (map_body_cases _ _ _ _ _ _ _ Eb) as [[Sk _]|[_ [ka [s1 [va [s2 [Ek [Ev [Qk [Qv C]]]]]]]]]].
+        destruct (map_body_cases _ _ _ _ _ _ _ Eb) as [ka [s1 [va [s2 [Ek [Ev [Qk [Qv [[Sk _]|[_ C]]]]]]]]]].
         { rewrite (skip_merged_hidden _ _ Hm) in Sk. discriminate. }
         simpl in Ek, Ev, C.
         destruct (key_not_skipped _ _ _ _ _ (incl_app_l' _ _ _ (incl_app_l' _ _ _ Hic)) Hagj Hks Ek) as [Nk Agk].
@@ -755,7 +756,7 @@ Proof.
     eapply covered_incl; eauto. simpl in Hi. simpl.
     pose proof (incl_child entry_occs _ _ _ _ Hi Hn) as Hic. unfold entry_occs in Hic. simpl in Hic.
     rewrite !app_assoc in Hic.
-    destruct (map_body_cases _ _ _ _ _ _ _ Eb) as [[Sk _]|[_ [ka [s1 [va [s2 [Ek [Ev [Qk [Qv C]]]]]]]]]].
+    destruct (map_body_cases _ _ _ _ _ _ _ Eb) as [ka [s1 [va [s2 [Ek [Ev [Qk [Qv [[Sk _]|[_ C]]]]]]]]]].
     { rewrite (skip_merged_hidden _ _ Hm) in Sk. discriminate. }
     simpl in Ek, Ev, C.
     destruct (key_not_skipped _ _ _ _ _ (incl_app_l' _ _ _ (incl_app_l' _ _ _ Hic)) Hagj Hks Ek) as [Nk Agk].
@@ -898,11 +899,14 @@ Proof.
   rewrite (flat_map_firstn_S _ _ _ _ Hn), app_assoc.
   set (pj := (pre ++ flat_map entry_occs (firstn j kvs))%list) in *.
   destruct kv as [k v]. simpl in *.
-  destruct (map_body_cases _ _ _ _ _ _ _ Eb) as [[Sk ->]|[Sk [ka [s1 [va [s2 [Ek [Ev [Qk [Qv C]]]]]]]]]]; simpl in *.
-  - rewrite Sk in Gj. split; [|intros h []]. eapply covers_all_rep; eauto.
-  - rewrite Sk in Gj. unfold entry_occs in Hic |- *. simpl in Hic |- *. rewrite !app_assoc in Hic. rewrite !app_assoc.
-    destruct (classify_sync _ _ _ _ _ _ (incl_app_l' _ _ _ (incl_app_l' _ _ _ Hic)) Hag Hc Ek) as [Ag1 [Cv1 [Xk _]]].
-    destruct (classify_sync _ _ _ _ _ _ (incl_app_l' _ _ _ Hic) Ag1 Cv1 Ev) as [Ag2 [Cv2 [Xv _]]].
+  destruct (map_body_cases _ _ _ _ _ _ _ Eb) as [ka [s1 [va [s2 [Ek [Ev [Qk [Qv C]]]]]]]]; simpl in *.
+  unfold entry_occs in Hic |- *. simpl in Hic |- *. rewrite !app_assoc in Hic. rewrite !app_assoc.
+  destruct (classify_sync _ _ _ _ _ _ (incl_app_l' _ _ _ (incl_app_l' _ _ _ Hic)) Hag Hc Ek) as [Ag1 [Cv1 [Xk _]]].
+  destruct (classify_sync _ _ _ _ _ _ (incl_app_l' _ _ _ Hic) Ag1 Cv1 Ev) as [Ag2 [Cv2 [Xv _]]].
+  destruct C as [[Sk ->]|[Sk C]]; simpl.
+  - (* a merged-in entry the options hide: record_anchors walked the value *)
+    split; [|intros h []]. apply record_covers; auto.
+  - rewrite Sk in Gj.
     assert (Hks : negb (o_kalias o) && is_excl ka = false -> key_shown o pj k).
     { intros Hns Hv. rewrite Hv in Hns. simpl in Hns. congruence. }
     destruct C as [[Xe ->]|[[Xe [Hk [Hsat ->]]]|[Xe [Hno Evp]]]]; simpl.
